@@ -447,7 +447,10 @@ func checkLookup(c *Ctx, fn *ssa.Function, endVal string) {
 				eq := HasFact(lf.Facts, FCmp("==", isCur, func(x *Term) bool {
 					return x.Op == "index" && sameSeq(x.Args[0]) && sameI(x.Args[1])
 				}))
-				bound := HasFact(lf.Facts, FCmp("<", sameI, MBin("-", MLen(sameSeq), MConst("1"))))
+				// i < len(seq)-1  ≡  i+1 < len(seq)  ≡  i+1 <= len(seq)-1
+				bound := HasFact(lf.Facts, FCmp("<", sameI, MBin("-", MLen(sameSeq), MConst("1")))) ||
+					HasFact(lf.Facts, FCmp("<", MBin("+", sameI, MConst("1")), MLen(sameSeq))) ||
+					HasFact(lf.Facts, FCmp("<=", MBin("+", sameI, MConst("1")), MBin("-", MLen(sameSeq), MConst("1"))))
 				ok := eq && bound
 				c.Ob("R4.1b", FuncName(fn)+"#return(seq[i+1])", ret.Pos(), ok, "successor of the current task", ifs(!ok, "seq[i+1] returned without currentTask == seq[i] and i < len(seq)-1")).WithFacts(lf.Facts)
 			default:
